@@ -22,13 +22,19 @@ def method_segments(an, cm, roles, m, res=None):
         res.count('paths_pruned_infeasible', len(pruned))
         for s, why in pruned[:1]:
             res.counts.setdefault('_pruned_reasons', set()).add(why)
-        if roles.kind != 'maplist':
+        if True:
             note = walking_iterator_slot(keep)
             if note is not None:
                 msg = ('G-UNKNOWN slot named through a loop-carried iterator / an element of a local container (%s): not modelled for the '
                        'caches in %s reached from %s::%s' % (note[0], show_site(note[1]), cm.name, m.key()))
                 if msg not in res.incomplete:
                     res.incomplete.append(msg)
+        note = size_probe(keep)
+        if note is not None:
+            msg = ('G-UNKNOWN presence decided by comparing the index size before and after an insertion (%s): insert-then-undo is not '
+                   'modelled in %s reached from %s::%s' % (note[0], show_site(note[1]), cm.name, m.key()))
+            if msg not in res.incomplete:
+                res.incomplete.append(msg)
         note = expired_reinsertion(keep)
         if note is not None:
             msg = ('G-UNKNOWN an expired entry is erased and its key inserted again within one operation (%s): judged only as update in '
@@ -36,6 +42,20 @@ def method_segments(an, cm, roles, m, res=None):
             if msg not in res.incomplete:
                 res.incomplete.append(msg)
     return keep
+
+
+def size_probe(tops):
+    """(term, site) of a condition that compares the key index's size() taken at two different moments"""
+    for top in tops:
+        idx = top.L.index
+        for seg in top.all_segments():
+            for c in seg.conds:
+                raw = c[4]
+                if isinstance(raw, tuple) and len(raw) == 4 and raw[0] == 'cmp':
+                    a, b = raw[2], raw[3]
+                    if all(isinstance(x, tuple) and len(x) > 4 and x[0] == 'q' and x[1] == 'size' and x[2] == idx for x in (a, b)) and a[4] != b[4]:
+                        return show(raw), c[3]
+    return None
 
 
 def expired_reinsertion(tops):
@@ -66,13 +86,23 @@ def walking_iterator_slot(tops):
             if isinstance(inner, tuple) and inner[:1] == ('elem',) and len(inner) > 1 and isinstance(inner[1], tuple) and inner[1][:1] == ('var',):
                 return True   # `*p` with p an element of a local container (pointers / iterators collected in an earlier loop)
         return any(has_lv_deref(x, depth + 1) for x in t if isinstance(x, tuple))
+    def is_local_elem(t):
+        if isinstance(t, tuple) and t[:1] == ('ld',) and len(t) == 3:
+            t = t[2]
+        return isinstance(t, tuple) and t[:1] == ('elem',) and len(t) > 1 and isinstance(t[1], tuple) and t[1][:1] == ('var',)
     for top in tops:
+        kind = top.L.r.kind
         for seg in top.all_segments():
             for e in seg.effects:
                 ent = getattr(e, 'ent', None)
-                if isinstance(ent, Ent) and ent.kind == 'OTHER' and e.kind in ('UNBIND', 'BIND', 'VAL', 'AUX_DEL', 'AUX_ADD', 'MOVE', 'BACKPTR', 'DEADLINE') \
-                        and has_lv_deref(getattr(ent, 'term', None)):
-                    return show(ent.term), e.site
+                if not isinstance(ent, Ent) or e.kind not in ('UNBIND', 'BIND', 'VAL', 'AUX_DEL', 'AUX_ADD', 'MOVE', 'BACKPTR', 'DEADLINE'):
+                    continue
+                term = getattr(ent, 'term', None)
+                if ent.kind == 'OTHER' and (has_lv_deref(term) or is_local_elem(term)):
+                    return show(term), e.site
+                if ent.kind == 'LV' and kind == 'slotvec':
+                    # a slot index that is a loop counter (sweeping all slots and acting on the marked ones)
+                    return 'slot index %s' % ent.arg, e.site
     return None
 
 
